@@ -46,9 +46,8 @@ func oracle(files []*descriptorpb.FileDescriptorProto, c batchCase, stage string
 		return false, nil
 	}
 	r := runnerFor(schema.Marshal(files), c.Level, c.Adv)
-	if r.conn != nil {
-		r.conn.Close()
-		r.conn = nil
+	if r.prog != nil {
+		r.prog.stop()
 	}
 	if r.err != nil && !strings.HasPrefix(r.err.Error(), "harness:") && stageOf(r.err) == stage {
 		return true, r.err
